@@ -205,7 +205,7 @@ theorem listen_peTail (c : Cfg) (s : S) (e : Bool) (h : listenOk s.streams = tru
       · simp only [finishOf, reenter_streams]; exact h
       · split
         · simp only [finishOf, reenter_streams]; exact h
-        · split <;> (simp only [finishOf, reenter_streams]; exact h)
+        · simp only [finishOf, reenter_streams]; exact h
     · split
       · simp only [finishOf, reenter_streams]; exact h
       · split <;> (simp only [finishOf, reenter_streams]; exact h)
@@ -703,13 +703,10 @@ theorem finish_quiet (c : Cfg) (s : S) (how : c.oneway = false) (hcl : s.cleaned
           rw [not_quiet_reenter _ _ (by decide)] at hq; cases hq
         · rw [if_neg hp] at hq
           have hp : g.phase = .UpFilter := by simpa using hp
-          cases e
-          · simp only [Bool.false_eq_true, if_false, finishOf] at hq
-            rw [quietS_iff] at hq
-            have := hq.2.1
-            simp [hp, Phase.next, awaiting] at this
-          · simp only [if_true, finishOf] at hq
-            rw [not_quiet_reenter _ _ (by decide)] at hq; cases hq
+          simp only [finishOf] at hq
+          rw [quietS_iff] at hq
+          have := hq.2.1
+          simp [hp, Phase.next, awaiting] at this
       · rw [if_neg hdi] at hq ⊢
         by_cases hsr : (g.up.isSome && g.setupRetry) = true
         · rw [if_pos hsr] at hq
